@@ -89,9 +89,9 @@ NoOut  == [op |-> "", k |-> Nil, c |-> Nil, err |-> FALSE, gd |-> 0, gr |-> 0]
 OutOf(r) == [op |-> r.op, k |-> r.k, c |-> r.res, err |-> r.err, gd |-> r.gd, gr |-> r.gr]
 
 Mapped == {k \in Keys : cmap[k] # 0}
-FreeIds(cm, thr) == {i \in 1..Pool : (\A k \in Keys : cm[k] # i) /\ (\A t \in Threads : thr[t].v # i)}
+FreeIds(cm, thr) == (1..Pool) \ ({cm[k] : k \in Keys} \cup {thr[t].v : t \in Threads})
 NewId == CHOOSE i \in FreeIds(cmap, th) : \A j \in FreeIds(cmap, th) : i <= j
-Norm(v, cm, thr) == [i \in 1..Pool |-> IF i \in FreeIds(cm, thr) THEN FreeVal ELSE v[i]]
+Norm(v, cm, thr) == LET fr == FreeIds(cm, thr) IN [i \in 1..Pool |-> IF i \in fr THEN FreeVal ELSE v[i]]
 
 SeqRemove(s, x) == SelectSeq(s, LAMBDA y : y # x)
 MoveFront(s, x) == <<x>> \o SeqRemove(s, x)
